@@ -11,6 +11,7 @@ Overlay directives (lines starting with `//@`), see DESIGN.md 2.1:
                                  text spliced between the header and the body `{`
   //@ loop <Type::fn|fn> <ordinal> ... //@ end
                                  text spliced before the loop body `{`
+  //@ loop_each <fn> <header regex> / loop_each_proof_start .. / loop_each_proof_end ..   (keyed on the loop header, any ordinal)
   //@ proof_start <fn> / proof_end <fn> / proof_before_tail <fn> / loop_proof_start <fn> <k> / loop_proof_end <fn> <k>
                                  `proof { ... }` text spliced as first/last statement
 
@@ -49,6 +50,7 @@ class Overlay:
         self.proofs = {}      # (kind, fn, k) -> text
         self.attrs = {}       # fn -> attribute text spliced in front of the fn
         self.stubs = set()    # fns emitted as signature + external_body (R6): body dropped
+        self.loop_templates = {}   # fn -> [dict(kind, regex, text, line)]: loop contracts keyed on the loop HEADER, not its ordinal
         self._parse()
 
     def _parse(self):
@@ -76,6 +78,8 @@ class Overlay:
                 self.proofs.update(inc.proofs)
                 self.attrs.update(inc.attrs)
                 self.stubs |= inc.stubs
+                for k_, v_ in inc.loop_templates.items():
+                    self.loop_templates.setdefault(k_, []).extend(v_)
                 i += 1
             elif d == 'kernel':
                 self.name = parts[1]
@@ -101,7 +105,7 @@ class Overlay:
                         rest.append(p)
                 self.items.append(dict(file=rest[0], kind=rest[1], name=' '.join(rest[2:]), **opts))
                 i += 1
-            elif d in ('pre', 'post', 'contract', 'loop', 'proof_start', 'proof_end', 'loop_proof_start', 'loop_proof_end', 'loop_proof_after', 'loop_ghost_before', 'attr', 'proof_at', 'proof_before_tail'):
+            elif d in ('pre', 'post', 'contract', 'loop', 'proof_start', 'proof_end', 'loop_proof_start', 'loop_proof_end', 'loop_proof_after', 'loop_ghost_before', 'attr', 'proof_at', 'proof_before_tail', 'loop_each', 'loop_each_proof_start', 'loop_each_proof_end', 'loop_each_ghost_before'):
                 j = i + 1
                 buf = []
                 while j < len(lines) and lines[j].strip() != '//@ end':
@@ -127,6 +131,10 @@ class Overlay:
                         if p.startswith('iter='):
                             it_name = p[5:]
                     self.loops[(parts[1], int(parts[2]))] = dict(text=text, line=src_line, iter=it_name)
+                elif d in ('loop_each', 'loop_each_proof_start', 'loop_each_proof_end', 'loop_each_ghost_before'):
+                    # //@ loop_each <fn> <regex over the loop header, i.e. the text from `while`/`for` up to `{`>
+                    # the block applies to EVERY loop of <fn> whose header matches; $1..$9 stand for the regex groups
+                    self.loop_templates.setdefault(parts[1], []).append(dict(kind=d, regex=ln[3:].split(None, 2)[2].strip(), text=text, line=src_line))
                 elif d == 'proof_at':
                     # //@ proof_at <fn> <nth> <anchor text...>
                     self.proofs[('proof_at', parts[1], int(parts[2]))] = dict(text=text, line=src_line, anchor=' '.join(parts[3:]))
@@ -416,6 +424,27 @@ def transform_fn(it: rs.Item, qual: str, ov: Overlay, log, used):
     inserts = []  # (index, text)
     for k, (kw, s, bo) in enumerate(loops):
         lp = ov.loops.get((qual, k))
+        tps = tpe = tgb = None
+        if not lp and ov.loop_templates.get(qual):
+            hdr_txt = ' '.join(body[s:bo].split())
+            for t in ov.loop_templates[qual]:
+                mt = re.fullmatch(t['regex'], hdr_txt)
+                if not mt:
+                    continue
+                txt = t['text']
+                for gi, gv in enumerate(mt.groups(), 1):
+                    txt = txt.replace('$%d' % gi, gv or '')
+                if t['kind'] == 'loop_each':
+                    lp = dict(text=txt, line=t['line'], iter=None)
+                elif t['kind'] == 'loop_each_proof_start':
+                    tps = dict(text=txt)
+                elif t['kind'] == 'loop_each_ghost_before':
+                    tgb = dict(text=txt)
+                else:
+                    tpe = dict(text=txt)
+            if not lp:
+                # a loop none of the header templates knows: the proof script does not fit this text (never an alarm)
+                raise ExtractError('anchor lost: %s: loop %d (`%s`) matches no loop_each header template' % (where, k, hdr_txt[:60]))
         if lp:
             used.add(('loop', qual, k))
             if kw == 'for' and re.search(r'^\s*ensures\b', lp['text'], re.M):
@@ -430,7 +459,7 @@ def transform_fn(it: rs.Item, qual: str, ov: Overlay, log, used):
                 if not m:
                     raise ExtractError('%s: loop %d has no `in`' % (where, k))
                 inserts.append((m.end(), splice(' %s:' % lp['iter'])))
-        ps = ov.proofs.get(('loop_proof_start', qual, k))
+        ps = ov.proofs.get(('loop_proof_start', qual, k)) or tps
         if ps:
             used.add(('loop_proof_start', qual, k))
             at = bo + 1
@@ -438,11 +467,11 @@ def transform_fn(it: rs.Item, qual: str, ov: Overlay, log, used):
             if m4:
                 at += m4.end()
             inserts.append((at, splice(' proof {\n' + ps['text'] + '\n} ')))
-        pe = ov.proofs.get(('loop_proof_end', qual, k))
+        pe = ov.proofs.get(('loop_proof_end', qual, k)) or tpe
         if pe:
             used.add(('loop_proof_end', qual, k))
             inserts.append((rs.match_close(bm, bo), splice(' proof {\n' + pe['text'] + '\n} ')))
-        gb = ov.proofs.get(('loop_ghost_before', qual, k))
+        gb = ov.proofs.get(('loop_ghost_before', qual, k)) or tgb
         if gb:
             # raw ghost statements (`let ghost x = ..;`) right before the loop: snapshots of the state at loop entry,
             # so that invariants need not depend on what the code did between function entry and the loop
@@ -451,7 +480,12 @@ def transform_fn(it: rs.Item, qual: str, ov: Overlay, log, used):
             m4 = re.search(r'/\*@R4<\w+\*/$', body[:s])
             if m4:
                 at = m4.start()
-            inserts.append((at, splice('\n' + gb['text'] + '\n')))
+            if bm[:at].rstrip().endswith('=>'):
+                # the loop is a match-arm expression: statements need a block around it (spliced braces, inverted by the self-check)
+                inserts.append((at, splice('{\n' + gb['text'] + '\n')))
+                inserts.append((rs.match_close(bm, bo) + 1, splice('}')))
+            else:
+                inserts.append((at, splice('\n' + gb['text'] + '\n')))
         pa = ov.proofs.get(('loop_proof_after', qual, k))
         if pa:
             # right after the loop's closing brace (anchored on the loop ordinal, not on code text)
